@@ -190,18 +190,42 @@ def marker_writers(res: CheckResult, prog: Program, marker: str):
 
 
 def detect_completed(res: CheckResult, prog: Program):
-    res.rules['DETECT-PRINT'] = 'detect_file prints the class name, with "(completed)" exactly on the mo.completed branch'
+    res.rules['DETECT-PRINT'] = 'detect_file prints the class name, and the text "(completed)" only under the condition mo.completed'
     fi = prog.func('CLI.detect_file')
-    ifs = [n for n in ast.walk(fi.node) if isinstance(n, ast.If)]
-    ok = False
-    detail = 'no branch on mo.completed found'
-    for i in ifs:
-        if attr_chain(i.test).endswith('.completed'):
-            t = ' '.join(attr_chain(s) for s in i.body)
-            e = ' '.join(attr_chain(s) for s in i.orelse)
-            ok = '(completed)' in t and '(completed)' not in e and '__class__.__name__' in t and '__class__.__name__' in e
-            detail = '' if ok else 'the (completed) suffix / class name is not printed on the right branch'
-    res.add('DETECT-PRINT', fi.short, 'if mo.completed: print(... (completed))', ok, detail, fi.file, fi.node.lineno)
+    mo = fi.node.args.args[1].arg if len(fi.node.args.args) > 1 else 'mo'
+    found = []       # (constant node, polarity list)
+
+    def walk(node, conds):
+        if isinstance(node, ast.If):
+            walk(node.test, conds)
+            for s in node.body:
+                walk(s, conds + [(norm(node.test), True)])
+            for s in node.orelse:
+                walk(s, conds + [(norm(node.test), False)])
+            return
+        if isinstance(node, ast.IfExp):
+            walk(node.test, conds)
+            walk(node.body, conds + [(norm(node.test), True)])
+            walk(node.orelse, conds + [(norm(node.test), False)])
+            return
+        if isinstance(node, ast.Constant) and isinstance(node.value, str) and '(completed)' in node.value:
+            found.append((node, conds))
+        for c in ast.iter_child_nodes(node):
+            walk(c, conds)
+    for s in fi.node.body:
+        walk(s, [])
+    pos, neg = f'{mo}.completed', f'not {mo}.completed'
+    ok = bool(found)
+    detail = '' if found else 'the text "(completed)" is never printed'
+    for node, conds in found:
+        guarded = any((c == pos and pol) or (c == neg and not pol) for c, pol in conds)
+        if not guarded:
+            ok, detail = False, f'"(completed)" at line {node.lineno} is not printed under the condition {pos}'
+    prints = calls_in(fi.node, lambda c: attr_chain(c.func) == 'print')
+    names = all('__class__.__name__' in norm(p) or 'type(' in norm(p) for p in prints) and bool(prints)
+    if ok and not names:
+        ok, detail = False, 'a print of detect_file does not show the class name'
+    res.add('DETECT-PRINT', fi.short, 'print(<class name> [+ "(completed)" if mo.completed])', ok, detail, fi.file, fi.node.lineno)
 
 
 def serializer(res: CheckResult, prog: Program):
@@ -260,6 +284,17 @@ def sorted_ctors(res: CheckResult, prog: Program):
         if call is None:
             res.error(f'SORTED-CTORS: {fi.short} does not return cls(...) (idiom not recognised)')
             continue
+        outer_arg = None
+        if isinstance(src, ast.Call) and attr_chain(src.func) != 'sorted' and len(src.args) == 1 and not src.keywords:
+            # one level of helper: cls(_sorted_readers([...]))  where the helper returns sorted(<its parameter ...>)
+            target = prog.resolve_name_expr(fi.module, src.func)
+            if target is None and isinstance(src.func, ast.Attribute) and attr_chain(src.func.value) in ('cls', 'self', 'MosCollection'):
+                target = prog.cls('MosCollection').find(src.func.attr)
+            if isinstance(target, FuncInfo):
+                rets = [r for r in ast.walk(target.node) if isinstance(r, ast.Return) and r.value is not None]
+                if len(rets) == 1:
+                    outer_arg = src.args[0]
+                    src = rets[0].value
         ok = isinstance(src, ast.Call) and attr_chain(src.func) == 'sorted' and len(src.args) == 1
         detail = '' if ok else f'the readers passed to cls(...) are {norm(src) if src is not None else "?"}: not the result of sorted(...)'
         if ok:
@@ -270,7 +305,7 @@ def sorted_ctors(res: CheckResult, prog: Program):
             inner = src.args[0]
             if any(isinstance(x, ast.Slice) for x in ast.walk(inner)) or calls_in(inner, lambda c: attr_chain(c.func) in ('reversed', 'set', 'filter')):
                 ok, detail = False, 'the list handed to sorted() is sliced or filtered'
-            made = calls_in(inner, lambda c: attr_chain(c.func) == 'MosReader.' + reader_ctor)
+            made = calls_in(outer_arg if outer_arg is not None else inner, lambda c: attr_chain(c.func) == 'MosReader.' + reader_ctor)
             res.add('CTOR-ARGS', fi.short, f'readers built with MosReader.{reader_ctor}', bool(made),
                     '' if made else f'the readers are not built with MosReader.{reader_ctor}', fi.file, fi.node.lineno)
         res.add('SORTED-CTORS', fi.short, 'cls(sorted([...readers...]), ...)', ok, detail, fi.file, call.lineno)
@@ -334,14 +369,17 @@ def order_preserved(res: CheckResult, prog: Program):
         bad = calls_in(fi.node, lambda c: attr_chain(c.func) in ('sorted', 'reversed', 'set', 'frozenset', 'random.shuffle')
                        or (isinstance(c.func, ast.Attribute) and c.func.attr in ('sort', 'reverse')))
         stores = [n for n in ast.walk(fi.node) if isinstance(n, ast.Assign) and any(attr_chain(t) == 'self._mos_readers' for t in n.targets)]
+        aliases = {'self.mos_readers', 'self._mos_readers'} | {n.targets[0].id for n in ast.walk(fi.node) if isinstance(n, ast.Assign)
+                                                                 and len(n.targets) == 1 and isinstance(n.targets[0], ast.Name)
+                                                                 and attr_chain(n.value) in ('self.mos_readers', 'self._mos_readers')}
         if stores or bad or name in ('_validate', 'merge', '__init__'):
             ok = not bad
             for s in stores:
                 copy_call = isinstance(s.value, ast.Call) and attr_chain(s.value.func) in ('list', 'tuple') and len(s.value.args) == 1 \
-                    and attr_chain(s.value.args[0]) in ('self.mos_readers', 'self._mos_readers', 'mos_readers')
+                    and attr_chain(s.value.args[0]) in aliases | {'mos_readers'}
                 if not isinstance(s.value, (ast.ListComp, ast.Name, ast.Attribute)) and not copy_call:
                     ok = False
-                if isinstance(s.value, ast.ListComp) and (len(s.value.generators) != 1 or attr_chain(s.value.generators[0].iter) not in ('self.mos_readers', 'self._mos_readers')):
+                if isinstance(s.value, ast.ListComp) and (len(s.value.generators) != 1 or attr_chain(s.value.generators[0].iter) not in aliases):
                     ok = False
             res.add('ORDER-PRESERVED', fi.short, 'no re-ordering of self._mos_readers', ok,
                     '' if ok else f'{fi.short} re-orders or rebuilds the reader list: {[norm(b) for b in bad] or [norm(s) for s in stores]}', fi.file, fi.node.lineno)
